@@ -58,6 +58,9 @@ void h_keyword(void) {
 /* ---- skipSpacesAndComments: blanks (and comments when enabled) skipped; classification of the end of input */
 void h_spaces(void) {
   uint8_t in[NB]; for (unsigned i = 0; i < NB; i++) in[i] = vin_u8();
+#ifdef CMPREFIX   /* the input opens a block (1) or line (2) comment: concrete so that the scanner's first two iterations are not symbolic */
+  in[0] = '/'; in[1] = CMPREFIX == 2 ? '/' : '*';
+#endif
   uint32_t found = vin_u8() & 1;
   struct Out o = {0}; w_ssc(in, NB, found, &o); VOBS(o.code); VOBS(o.consumed); VOBS(o.found);
   /* reference: state machine over positions 0..NB (position NB reads as end) */
